@@ -468,6 +468,14 @@ def run_sequences(rep, rng, name, Q, reach, ftab, nseq):
         reset_memo(f)
         st = None; tr = []
         for i, q in enumerate(seq):
+            if rng.random() < 0.2:
+                # a request that is aborted by an exception raised inside the generator (here: an unexpected keyword reaches the
+                # undecorated function): the verified machine treats it as a no-op, the memo must be left as it was
+                qa = min(Q, (f.memo_prec if f.memo_prec is not None else 0) + rng.randint(1, 200)) if rng.random() < 0.7 else rng.randint(0, Q)
+                try:
+                    g(qa, _verif_abort_=True)
+                except TypeError:
+                    pass
             try:
                 a = int(g(q))
                 got = (a, f.memo_prec, None if f.memo_val is None else int(f.memo_val))
@@ -544,8 +552,17 @@ def api_sweep(rep, rng, name, D, base, A, K, Q, ftab, tier_, bad_entries):
                 modes = list(MODES); rng.shuffle(modes)
                 for r in modes:
                     how = rng.random()
-                    if how < 0.6:
+                    if how < 0.45:
                         t = const(prec=p, rounding=r)._mpf_; hw = "mp.%s(prec=,rounding=)" % name
+                    elif how < 0.6:
+                        # through the number constructor, under an unrelated context precision: the constant must be evaluated at
+                        # the requested precision and mode, not taken from its value at the context precision
+                        mp.prec = rng.choice([20, 53, 64, 300])
+                        try:
+                            t = mp.mpf(const, prec=p, rounding=r)._mpf_
+                        finally:
+                            mp.prec = saved[0]
+                        hw = "mp.mpf(mp.%s, prec=, rounding=)" % name
                     elif how < 0.8:
                         mp.prec = p; mp._prec_rounding[1] = r
                         try:
